@@ -319,7 +319,7 @@ pub fn run(ctx: &Ctx) -> i32 {
             c
         };
         let layout = if f.desc["layout"].as_str().unwrap_or("").starts_with("stripped") { "stripped" } else { "newc" };
-        let mut bad = |acc: &mut Acc, clause: &str, what: String| {
+        let bad = |acc: &mut Acc, clause: &str, what: String| {
             acc.viol(Violation::new("foreign", what, case()).sig("clause", clause).sig("layout", layout).rank(i));
         };
         match parse_pkg(&f.bytes) {
